@@ -196,6 +196,74 @@ fn gen_literal(rng: &mut Rng) -> String {
   }
 }
 
+/// A string literal made of escape sequences around the boundaries `consume_unicode` distinguishes.
+fn gen_escape_string(rng: &mut Rng) -> String {
+  const U4: [&str; 16] = ["0000", "0041", "00e9", "007F", "0080", "07FF", "0800", "D7FF", "D800", "D801", "DBFF", "DC00", "DC01", "DFFF", "E000", "FFFF"];
+  const U6: [&str; 9] = ["000000", "00D800", "00DFFF", "00FFFF", "010000", "01F40E", "10FFFF", "110000", "FFFFFF"];
+  let mut s = String::from("\"");
+  for _ in 0..(1 + rng.below(4)) {
+    match rng.below(10) {
+      0..=4 => {
+        s.push_str("\\u");
+        if rng.chance(1, 4) {
+          s.push_str(&format!("{:04X}", rng.below(0x10000)));
+        } else {
+          s.push_str(*rng.pick(&U4));
+        }
+      }
+      5 => {
+        s.push_str("\\U");
+        s.push_str(*rng.pick(&U6));
+      }
+      6 => s.push_str(*rng.pick(&["\\n", "\\t", "\\r", "\\\"", "\\'", "\\\\", "\\b", "\\f", "\\x", "\\u00", "\\uD83", "\\U01F4", "\\uZZZZ", "\\"])),
+      7 => s.push_str(*rng.pick(&["a", " ", "é", "𝒳", "\u{D7FF}"])),
+      8 => {
+        // a high surrogate followed by an arbitrary escape
+        s.push_str("\\u");
+        s.push_str(*rng.pick(&["D800", "D801", "D83D", "DBFF"]));
+        s.push_str("\\u");
+        s.push_str(&format!("{:04X}", rng.below(0x10000)));
+      }
+      _ => {
+        s.push_str("\\u");
+        s.push_str(*rng.pick(&["D800", "D83D", "DBFF"]));
+        s.push_str(*rng.pick(&["", "A", "\\n", "\\U01F40E", "\\u"]));
+      }
+    }
+  }
+  if !rng.chance(1, 10) {
+    s.push('"');
+  }
+  s
+}
+
+/// The names `Bif::from_str` accepts, read from /repo/feel/src/bif.rs (empty when the file cannot be read).
+fn bif_names() -> Vec<String> {
+  let src = std::fs::read_to_string("/repo/feel/src/bif.rs").unwrap_or_default();
+  let mut out = vec![];
+  for line in src.lines() {
+    let t = line.trim();
+    if t.starts_with('"') && t.contains("=> Ok(Self::") {
+      if let Some(end) = t[1..].find('"') {
+        out.push(t[1..1 + end].to_string());
+      }
+    }
+  }
+  out
+}
+
+/// An argument for the built-in stress family: values at the edges of what the built-ins convert
+/// (fractions beyond nanoseconds, 35-digit numbers, zero, negative, temporal values, nesting).
+fn gen_stress_arg(rng: &mut Rng) -> String {
+  const A: [&str; 44] = [
+    "0", "1", "-1", "2", "3", "11", "12", "13", "23", "24", "59", "60", "0.5", "-0.5", "1.5", "45.1234567891", "59.9999999999", "10/3", "-10/3", "0.0000000001", "-0.0000000001",
+    "99999999999999999999999999999999999", "-99999999999999999999999999999999999", "1000000", "2021", "-2021", "null", "true", "\"\"", "\"abc\"", "\"2021-02-03\"", "\"10:11:12\"",
+    "\"P1D\"", "[]", "[1, 2, 3]", "[null]", "[[1], [2, [3]]]", "{}", "{a: 1}", "date(\"2021-02-03\")", "time(\"10:11:12\")", "date and time(\"2021-02-03T10:11:12\")", "duration(\"PT1H\")",
+    "duration(\"P1Y2M\")",
+  ];
+  rng.pick(&A).to_string()
+}
+
 fn gen_expr(rng: &mut Rng, depth: u32) -> String {
   if depth == 0 {
     return if rng.chance(1, 3) { rng.pick(&NAMES).to_string() } else { gen_literal(rng) };
@@ -714,7 +782,15 @@ pub fn run(cfg: &Cfg) -> Report {
       }
       let mut keys: Vec<String> = scope.flatten_keys().into_iter().collect();
       keys.sort();
-      let input = match i % 4 {
+      let input = match i % 5 {
+        4 => {
+          let mut s = gen_escape_string(&mut rng);
+          if rng.chance(1, 3) {
+            s.push_str(" + ");
+            s.push_str(&gen_escape_string(&mut rng));
+          }
+          s
+        }
         0 => random_unicode(&mut rng),
         1 => {
           let mut s = String::new();
@@ -841,6 +917,28 @@ pub fn run(cfg: &Cfg) -> Report {
   }
   for _ in 0..(if thorough { 60000 } else { 800 }) {
     inputs.push(("unicode".into(), random_unicode(&mut rng)));
+  }
+  for _ in 0..(if thorough { 40000 } else { 1500 }) {
+    inputs.push(("escapes".into(), gen_escape_string(&mut rng)));
+  }
+  // every built-in name with edge-case arguments, positional and (for the date/time constructors) named
+  let bifs = bif_names();
+  rep.extra.insert("bif_names_found".into(), json!(bifs.len()));
+  for b in &bifs {
+    for _ in 0..(if thorough { 600 } else { 30 }) {
+      let n = rng.below(5);
+      let args: Vec<String> = (0..n).map(|_| gen_stress_arg(&mut rng)).collect();
+      inputs.push(("bif-stress".into(), format!("{}({})", b, args.join(", "))));
+    }
+  }
+  for _ in 0..(if thorough { 20000 } else { 400 }) {
+    let e = match rng.below(4) {
+      0 => format!("time({}, {}, {})", gen_stress_arg(&mut rng), gen_stress_arg(&mut rng), gen_stress_arg(&mut rng)),
+      1 => format!("time(hour: {}, minute: {}, second: {}, offset: {})", gen_stress_arg(&mut rng), gen_stress_arg(&mut rng), gen_stress_arg(&mut rng), gen_stress_arg(&mut rng)),
+      2 => format!("date({}, {}, {})", gen_stress_arg(&mut rng), gen_stress_arg(&mut rng), gen_stress_arg(&mut rng)),
+      _ => format!("date and time({}, {})", gen_stress_arg(&mut rng), gen_stress_arg(&mut rng)),
+    };
+    inputs.push(("bif-stress".into(), e));
   }
   for d in [1usize, 2, 10, 50, 100, 150, 200] {
     for (fam, s) in deep_inputs(d) {
